@@ -6,7 +6,9 @@ Implementation under test (run for real on every case):
   real Headers.connect() with a linked chain of 112-byte headers carrying the chosen Merkle roots.
 Model: Model/C08.v (extracted), hash answered by hashlib through the oracle protocol.
 Monitor: the property's own statement, with a textbook Merkle tree/verifier written here on hashlib.
-Legacy lbry.wallet.claim_proofs.verify_proof: correspondence only against a checker written here (no theorem).
+Call sites run as well: Ledger._single_batch and WalletManager.get_transaction (both build fresh Transaction objects).
+Legacy lbry.wallet.claim_proofs.verify_proof: correspondence only (no theorem) against a checker written here and
+against the extracted Gallina model Model/C08_Claim.v.
 """
 import asyncio
 import binascii
@@ -17,7 +19,8 @@ import random
 import struct
 
 import lbry.wallet  # noqa: F401  (must be the first lbry import)
-from lbry.wallet import Ledger, Database, Transaction
+from lbry.wallet import Ledger, Database, Transaction, Wallet, Account
+from lbry.wallet.manager import WalletManager
 from lbry.wallet.header import Headers, UnvalidatedHeaders
 import lbry.wallet.ledger as ledger_mod
 from lbry.wallet import claim_proofs
@@ -146,6 +149,9 @@ class FakeNetwork:
         self.calls.append([txid, height])
         return self.response
 
+    async def get_transaction_and_merkle(self, txid, known_height=None):
+        return self.batch[txid]
+
     async def get_transaction_batch(self, txids, restricted):
         self.batch_calls = getattr(self, 'batch_calls', []) + [[list(txids), restricted]]
         return {txid: self.batch[txid] for txid in txids}
@@ -175,7 +181,20 @@ class World:
         self.cache[key] = (ledger, raws)
         return ledger, raws
 
+    def manager(self):
+        """a WalletManager over one ledger with an opened in-memory database (for WalletManager.get_transaction)"""
+        if getattr(self, '_manager', None) is None:
+            ledger = Ledger({'db': Database(':memory:'), 'headers': Hd(':memory:')})
+            self.loop.run_until_complete(ledger.db.open())
+            wallet = Wallet()
+            Account.from_dict(ledger, wallet, {'seed': 'carbon smart garage balance margin twelve chest sword toast '
+                                                       'envelope bottom stomach absent'})
+            self._manager = WalletManager(wallets=[wallet])
+        return self._manager
+
     def close(self):
+        if getattr(self, '_manager', None) is not None:
+            self.loop.run_until_complete(self._manager.ledger.db.close())
         self.loop.close()
 
 
@@ -367,6 +386,13 @@ def block_cases(rng, n, seed, indices, thorough):
             if mutation is not None:
                 c['mutation'] = mutation
             c.update(over)
+            # server format: the reply also NAMES the block ('block_height'); by default it names the block the
+            # proof was built for (height `at`), whatever height the wallet is asked to record
+            if rng.random() < 0.85:
+                for key in ('arg', 'net'):
+                    d = c.get(key)
+                    if isinstance(d, dict) and 'merkle' in d and 'block_height' not in d:
+                        c[key] = dict(d, block_height=at)
             return c
 
         yield mk('genuine', 'accept')
@@ -444,22 +470,42 @@ def block_cases(rng, n, seed, indices, thorough):
         # --- the height ---
         hs = {0, -1, at - 1, at + 1, size - 1, size, size + 1, rng.randrange(-5, size + 5), 2 ** 31, -2 ** 40}
         hs.discard(at)
-        for h2 in sorted(hs) if thorough else sorted(set(rng.sample(sorted(hs), 4) + [size, 0])):
+        inrange_other = [x for x in range(1, size) if x != at]
+        pick = sorted(hs) if thorough else sorted(set(rng.sample(sorted(hs), 4) + [size, 0] + inrange_other[:1]))
+        for h2 in pick:
             yield mk('mut:height', 'reject', {'height': h2}, height=h2)
+        # the wallet records height h2 (from the address history) while the dict NAMES the block the proof is for:
+        # always with the key present, through the direct argument and through the get_merkle fetch
+        for h2 in (inrange_other if thorough else inrange_other[:1] + inrange_other[-1:]):
+            yield mk('mut:height-dict-names-true-block', 'reject', {'height': h2, 'block_height': at}, height=h2,
+                     arg={'merkle': text_elems(branch), 'pos': idx, 'block_height': at})
+            yield mk('mut:height-dict-names-true-block-fetched', 'reject', {'height': h2, 'block_height': at}, height=h2,
+                     arg=rng.choice([None, {}]), net={'merkle': text_elems(branch), 'pos': idx, 'block_height': at})
+        # the other way round: right height, but the dict claims another block (in range with a different root, or
+        # no header at all): what the dict claims is irrelevant, the local header at the recorded height decides
+        claims = inrange_other[:2] + [0, -1, size, size + 7, 2 ** 31]
+        for bh in (claims if thorough else rng.sample(claims, 3) + inrange_other[:1]):
+            yield mk('mut:dict-claims-other-block', 'accept', {'block_height': bh},
+                     arg={'merkle': text_elems(branch), 'pos': idx, 'block_height': bh})
+        if thorough or rng.random() < 0.3:
+            bh = rng.choice(claims)
+            yield mk('mut:dict-claims-other-block-fetched', 'accept', {'block_height': bh}, arg=rng.choice([None, {}]),
+                     net={'merkle': text_elems(branch), 'pos': idx, 'block_height': bh})
     # boundary heights with genuine proofs: 1 and len-1 accepted, 0 and len not
     idx = rng.randrange(n)
     branch = ref_branch(levels, idx)
     for size2, at2, exp in ((2, 1, 'accept'), (5, 4, 'accept'), (5, 1, 'accept'), (1, 0, None), (4, 0, None)):
         roots2 = fresh_roots(rng, size2, at2, root)
         yield dict(base, kind='boundary-height', idx=idx, raw=raws[idx].hex(), expect=exp, height=at2,
-                   roots=[r.hex() for r in roots2], arg={'merkle': text_elems(branch), 'pos': idx})
+                   roots=[r.hex() for r in roots2], arg={'merkle': text_elems(branch), 'pos': idx, 'block_height': at2})
     # the same root stored under a second height: presenting the proof there is a genuine proof too
     if size >= 4:
         h2 = rng.choice([x for x in range(1, size) if x != at])
         roots2 = list(roots)
         roots2[h2] = root
         yield dict(base, kind='height-same-root', idx=idx, raw=raws[idx].hex(), expect='accept-same-root', height=h2,
-                   roots=[r.hex() for r in roots2], arg={'merkle': text_elems(branch), 'pos': idx})
+                   roots=[r.hex() for r in roots2],
+                   arg={'merkle': text_elems(branch), 'pos': idx, 'block_height': rng.choice([at, h2])})
 
 
 def batch_checks(run, world, model, rng, n, seed):
@@ -475,6 +521,9 @@ def batch_checks(run, world, model, rng, n, seed):
     roots = fresh_roots(rng, size, at, root)
     ledger, hraws = world.ledger_for(roots)
     idxs = rng.sample(range(n), min(n, rng.randrange(1, 9)))
+    others = [x for x in range(1, size) if x != at]
+    req_height = at if rng.random() < 0.7 else rng.choice([0, -1, size, size + 2] + others * 3)
+    claimed = at if rng.random() < 0.8 else rng.choice([0, size, 2 ** 31] + others * 2)   # what the reply names
     entries = []
     for idx in idxs:
         branch = ref_branch(levels, idx)
@@ -496,15 +545,21 @@ def batch_checks(run, world, model, rng, n, seed):
             j = rng.choice([i for i in range(n) if i != idx])
             br, pos = ref_branch(levels, j), j
             exp, flavour = 'reject', 'proof-of-other-tx'
-        else:
+        elif c < 0.95:
             br = branch + [rng.randbytes(32)]
             exp, flavour = 'reject', 'len+1'
-        entries.append((idx, {'merkle': text_elems(br), 'pos': pos}, exp, flavour))
+        else:
+            exp, flavour = None, 'no-merkle-key'
+        arg = {'block_height': at} if flavour == 'no-merkle-key' else \
+            {'block_height': claimed, 'merkle': text_elems(br), 'pos': pos}
+        if req_height != at:
+            exp = 'reject' if (0 < req_height < size and flavour != 'no-merkle-key') else None
+        entries.append((idx, arg, exp, flavour))
     net = FakeNetwork(None)
     net.batch = {wire(leaves[idx]): (raws[idx].hex(), decode_arg(arg)) for idx, arg, _, _ in entries}
     ledger.network = net
-    heights = {wire(leaves[idx]): at for idx, _, _, _ in entries}
-    batch_case = {'kind': 'batch', 'n': n, 'block_seed': seed, 'roots': [r.hex() for r in roots], 'height': at,
+    heights = {wire(leaves[idx]): req_height for idx, _, _, _ in entries}
+    batch_case = {'kind': 'batch', 'n': n, 'block_seed': seed, 'roots': [r.hex() for r in roots], 'height': req_height,
                   'entries': [[idx, arg, flavour] for idx, arg, _, flavour in entries]}
     try:
         txs = world.loop.run_until_complete(ledger._single_batch(list(heights), heights))
@@ -514,20 +569,124 @@ def batch_checks(run, world, model, rng, n, seed):
         return
     for idx, arg, exp, flavour in entries:
         case = {'kind': 'batch:' + flavour, 'n': n, 'block_seed': seed, 'idx': idx, 'raw': raws[idx].hex(),
-                'roots': batch_case['roots'], 'height': at, 'arg': arg, 'net': {}, 'expect': exp}
+                'roots': batch_case['roots'], 'height': req_height, 'arg': arg, 'net': {}, 'expect': exp}
         tx = txs.get(wire(leaves[idx]))
         run.case(case, nontrivial=True)
         run.count('kind:' + case['kind'])
         if tx is None:
             run.violation(case, 'transaction missing from the batch result', signature={'kind': case['kind'], 'n': n, 'idx': idx})
             continue
-        obs = {'height': tx.height, 'position': tx.position, 'verified': tx.is_verified, 'outcome': 'tx', 'fetched': False}
+        obs = {'height': tx.height, 'position': tx.position, 'verified': tx.is_verified, 'fetched': False,
+               'outcome': 'none' if flavour == 'no-merkle-key' and 0 < req_height < size else 'tx'}
         extra = {'net_calls': net.calls, 'txid': tx.id, 'hash': tx.hash, 'len_headers': len(ledger.headers)}
         bad = monitor(case, obs, extra) or (net.calls and 'get_merkle called although the batch carried the proofs')
         if bad:
             run.violation(case, bad, signature={'kind': case['kind'], 'n': n, 'idx': idx, 'block_seed': seed})
             continue
         run.compare('C08.maybe_verify via _single_batch', case, obs, run_model(model, case, hraws))
+
+
+def replay_batch_entry(run, world, model, case):
+    """one stored batch:* case again through Ledger._single_batch (a batch of this one transaction)"""
+    roots = [bytes.fromhex(r) for r in case['roots']]
+    ledger, hraws = world.ledger_for(roots)
+    raw = bytes.fromhex(case['raw'])
+    txid = wire(H(raw))
+    net = FakeNetwork(None)
+    net.batch = {txid: (case['raw'], decode_arg(case['arg']))}
+    ledger.network = net
+    txs = world.loop.run_until_complete(ledger._single_batch([txid], {txid: case['height']}))
+    tx = txs[txid]
+    flavour = case['kind'].split(':', 1)[1]
+    obs = {'height': tx.height, 'position': tx.position, 'verified': tx.is_verified, 'fetched': False,
+           'outcome': 'none' if flavour == 'no-merkle-key' and 0 < case['height'] < len(roots) else 'tx'}
+    extra = {'net_calls': net.calls, 'txid': tx.id, 'hash': tx.hash, 'len_headers': len(ledger.headers)}
+    run.case(case, nontrivial=True)
+    bad = monitor(case, obs, extra)
+    if bad:
+        run.violation(case, bad, signature={'kind': case['kind'], 'n': case.get('n'), 'idx': case.get('idx'),
+                                            'block_seed': case.get('block_seed')})
+    else:
+        run.compare('C08.maybe_verify via _single_batch', case, obs, run_model(model, case, hraws))
+
+
+def show_case(run, world, model, case):
+    """the second call site: WalletManager.get_transaction (transaction_show) for a transaction unknown to the
+    database: the server's (raw, merkle) answer is verified only when merkle['block_height'] > 0"""
+    roots = [bytes.fromhex(r) for r in case['roots']]
+    cached, hraws = world.ledger_for(roots)
+    mgr = world.manager()
+    ledger = mgr.ledger
+    ledger.headers = cached.headers
+    raw = bytes.fromhex(case['raw'])
+    txid = wire(H(raw))
+    net = FakeNetwork(None)
+    net.batch = {txid: (case['raw'], decode_arg(case['arg']))}
+    ledger.network = net
+    run.case(case, nontrivial=True)
+    run.count('kind:' + case['kind'])
+    sig = {'kind': case['kind'], 'n': case.get('n'), 'idx': case.get('idx'), 'block_seed': case.get('block_seed')}
+    try:
+        tx = world.loop.run_until_complete(mgr.get_transaction(txid))
+    except Exception as e:
+        run.disagreement('C08.show', case, type(e).__name__, 'no exception')
+        return
+    if not isinstance(tx, Transaction):
+        run.disagreement('C08.show', case, repr(tx)[:200], 'a Transaction')
+        return
+    h = case['height']
+    obs = {'height': tx.height, 'position': tx.position, 'verified': tx.is_verified, 'outcome': 'tx', 'fetched': False}
+    extra = {'net_calls': net.calls, 'txid': tx.id, 'hash': tx.hash, 'len_headers': len(ledger.headers)}
+    if h is None or not h > 0:
+        # not handed to maybe_verify_transaction at all: must stay unverified with the server's height
+        if tx.is_verified:
+            run.violation(case, f'transaction with block_height {h} reported verified', signature=sig)
+        else:
+            run.compare('C08.show (no verification below height 1)', case,
+                        [tx.height, tx.position, tx.is_verified], [h, -1, False])
+        return
+    bad = monitor(case, obs, extra)
+    if bad:
+        run.violation(case, bad, signature=sig)
+        return
+    mcase = dict(case, prior={'height': h, 'position': -1, 'verified': False})
+    run.compare('C08.maybe_verify via WalletManager.get_transaction', case, obs, run_model(model, mcase, hraws))
+
+
+def show_cases(rng, n, seed):
+    raws = make_block(n, seed)
+    leaves = [H(r) for r in raws]
+    levels = ref_levels(leaves)
+    size = rng.randrange(3, 8)
+    at = rng.randrange(1, size)
+    roots = fresh_roots(rng, size, at, levels[-1][0])
+    for idx in rng.sample(range(n), min(n, 3)):
+        branch = ref_branch(levels, idx)
+        path = ref_path(branch, idx, leaves[idx])
+        for flavour in ('genuine', 'wrong-sibling', 'pos-bit', 'height', 'mempool'):
+            br, pos, h, exp = list(branch), idx, at, 'accept'
+            if flavour == 'wrong-sibling':
+                if not br:
+                    continue
+                br[rng.randrange(len(br))] = rng.randbytes(32)
+                exp = 'reject'
+            elif flavour == 'pos-bit':
+                if not br:
+                    continue
+                k = rng.randrange(len(br))
+                pos = idx ^ (1 << k)
+                exp = 'accept-dup' if branch[k] == path[k] else 'reject'
+            elif flavour == 'height':
+                h = rng.choice([x for x in (at - 1, at + 1, size, size + 1, 2 ** 31) if x != at and x > 0])
+                exp = 'reject'
+            elif flavour == 'mempool':
+                h = rng.choice([0, -1, None])
+                exp = None
+            arg = {'merkle': text_elems(br), 'pos': pos}
+            if h is not None:
+                arg['block_height'] = h
+            yield {'kind': 'show:' + flavour, 'n': n, 'block_seed': seed, 'idx': idx, 'raw': raws[idx].hex(),
+                   'roots': [r.hex() for r in roots], 'height': h, 'arg': arg, 'net': {}, 'expect': exp}
 
 
 BAD_ELEMS = ['', 'a', 'zz', '0g', 'abc', ' ' * 64, '0x' + '11' * 31, '11' * 31, '11' * 33, '1' * 63, 'AB' * 32,
@@ -548,6 +707,8 @@ def malformed_cases(rng, count):
         at = rng.randrange(1, size)
         roots = fresh_roots(rng, size, at, levels[-1][0])
         good = {'merkle': text_elems(branch), 'pos': idx}
+        if rng.random() < 0.7:
+            good['block_height'] = at
         d = json.loads(json.dumps(good))
         kind = rng.choice(['no-merkle', 'no-pos', 'empty', 'none', 'extra-keys', 'bad-elem', 'bytes-elems', 'upper',
                            'neg-pos', 'huge-pos', 'reverify-bad', 'reverify-good', 'net-bad', 'wide-elem',
@@ -914,6 +1075,23 @@ def load_corpus():
     return out
 
 
+# source text of the modelled functions when the model was written; a difference is reported as a NOTE in the
+# evidence (never as a violation: behaviour is what the correspondence checks)
+PINNED_SOURCE = {'Ledger.get_root_of_merkle_tree': '2edc16d57f948639', 'Ledger.maybe_verify_transaction': 'efd465519715b481',
+                 'Headers.deserialize': '8c109767011b2873'}
+
+
+def source_fingerprints():
+    import inspect
+    out = {}
+    for f in (Ledger.get_root_of_merkle_tree, Ledger.maybe_verify_transaction, Headers.deserialize):
+        try:
+            out[f.__qualname__] = hashlib.sha256(inspect.getsource(f).encode()).hexdigest()[:16]
+        except Exception as e:
+            out[f.__qualname__] = type(e).__name__
+    return out
+
+
 def oracles():
     return {'dsha': H, 'weak': weak_hash}
 
@@ -931,11 +1109,14 @@ def main(run):
         'position bit below the branch length (duplicated-last-node levels expected to stay accepted), one bit above, '
         'another index, branch length +1/-1 at both ends, a byte of the transaction, another transaction of the block, '
         'a byte of the root stored in the header (byte 0 or 31 and a random one), '
-        'heights {0,-1,h-1,h+1,len-1,len,len+1,2^31,-2^40,random}. Boundary heights 1 and len-1; same root under two '
+        'heights {0,-1,h-1,h+1,len-1,len,len+1,2^31,-2^40,random}. Dicts are in the server format: 85% carry '
+        '\'block_height\' naming the block the proof was built for; extra classes: recorded height differs from the '
+        'named block (direct and via get_merkle) -> must not verify; dict claims another / unknown block at the right '
+        'height -> still verified. Boundary heights 1 and len-1; same root under two '
         'heights. Malformed stream: missing keys, falsy dict (network fetch), undecodable / upper-case / bytes / '
         'over- and under-long siblings, negative and 2^64-scale positions, re-verification of an already verified tx. '
         'Ledger._single_batch (the real call site, fresh Transaction objects) on batches of 1..8 transactions with '
-        'genuine and wrong proofs mixed. get_root_of_merkle_tree directly under SHA-256d and under a weak hash; explicit collisions from the model; '
+        'genuine and wrong proofs mixed; WalletManager.get_transaction (second call site) incl. block_height <= 0. get_root_of_merkle_tree directly under SHA-256d and under a weak hash; explicit collisions from the model; '
         'legacy claim_proofs.verify_proof on generated trie paths and 12 mutations (correspondence only). '
         'distinct = distinct case JSON; non-trivial = a proof was evaluated or an error branch taken.')
     try:
@@ -965,6 +1146,9 @@ def main(run):
                 do_case(run, world, model, case)
         for _ in range(vlib.scaled(run.tier, 150, 4000)):
             batch_checks(run, world, model, rng, rng.choice([1, 2, 3, 5, 6, 7, 8, 11, 16, 21, 33, 64]), rng.randrange(10 ** 9))
+        for _ in range(vlib.scaled(run.tier, 40, 1000)):
+            for case in show_cases(rng, rng.choice([1, 2, 3, 5, 7, 8, 13, 32, 64]), rng.randrange(10 ** 9)):
+                show_case(run, world, model, case)
         for case in malformed_cases(rng, vlib.scaled(run.tier, 1500, 30000)):
             do_case(run, world, model, case)
         static_fold_checks(run, model, rng, vlib.scaled(run.tier, 1500, 30000))
@@ -975,8 +1159,10 @@ def main(run):
                        'its own hash), not reduced to a collision; rejection of these mutants is checked by the '
                        'monitor on every (n, idx)']
         run.supporting = {
-            'legacy claim_proofs.verify_proof': 'correspondence against a checker written in the harness; no Coq '
-                                                'model and no theorem',
+            'legacy claim_proofs.verify_proof': 'correspondence only, no theorem: the real function against a checker '
+                                                'written in the harness and against the extracted Gallina model '
+                                                'Model/C08_Claim.v (ASCII names; non-ASCII names only against the '
+                                                'harness checker)',
             'weak-hash runs': 'get_root_of_merkle_tree with ledger.double_sha256 replaced in memory by an 8-bit '
                               'hash, to tie the fold for a second hash function and to exhibit explicit collisions',
         }
@@ -984,6 +1170,9 @@ def main(run):
                                      'the sibling at that level equals the running hash (duplicated last node, e.g. '
                                      'n=3, idx=2, bit 0: position 3 is accepted and recorded); such flips are counted '
                                      'under kind:mut:pos-bit-dup-sibling'})
+        fp = source_fingerprints()
+        run.notes.append({'source_text_changed_since_model_was_written (warning only)':
+                          sorted(k for k in PINNED_SOURCE if fp.get(k) != PINNED_SOURCE[k]), 'fingerprints': fp})
         run.notes.append({'model_calls': model.calls, 'oracle_calls': model.oracle_calls})
     finally:
         model.close()
@@ -996,7 +1185,11 @@ def replay(run, case):
     try:
         if 'traceback' in case:
             run.disagreement('harness-crash', case, None, None)
-        elif case.get('kind', '').startswith(('tree', 'static-fold', 'collision-demo', 'legacy')):
+        elif case.get('kind', '').startswith('show:'):
+            show_case(run, world, model, case)
+        elif case.get('kind', '').startswith('batch:'):
+            replay_batch_entry(run, world, model, case)
+        elif case.get('kind', '').startswith(('tree', 'static-fold', 'collision-demo', 'legacy', 'batch')):
             run.notes.append('replay of tree/static/legacy cases: rerun the tier with the same VERIF_SEED')
             main(run)
         else:
